@@ -385,18 +385,19 @@ func genCliFault(seed uint64, prop string) *Scenario {
 // runner and oracles
 
 type cliRun struct {
-	e         *env
-	c         *client.Client
-	srv       *stubServer
-	handed    map[uint64]*spb.AFTOperation // every operation handed to Q
-	order     []uint64
-	nextID    uint64
-	elec      uint64
-	faulted   bool
-	faultWhat string
-	pollStop  bool
-	pollDone  bool
-	polls     int
+	e          *env
+	c          *client.Client
+	srv        *stubServer
+	handed     map[uint64]*spb.AFTOperation // every operation handed to Q
+	order      []uint64
+	nextID     uint64
+	elec       uint64
+	faulted    bool
+	faultWhat  string
+	afterReset bool
+	pollStop   bool
+	pollDone   bool
+	polls      int
 }
 
 func (cr *cliRun) newClient() {
@@ -486,7 +487,7 @@ func (cr *cliRun) invariant(when string, final bool) {
 		switch {
 		case term[id] > 1 && !cr.srv.violated:
 			e.report("C13", "completed-twice", "operation has two terminal results", fmt.Sprintf("%s: op %d", when, id), false)
-		case term[id] == 0 && !pending[id] && !cr.faulted && !cr.srv.violated:
+		case term[id] == 0 && !pending[id]:
 			e.report("C13", "operation-lost", "operation is neither pending nor resulted", fmt.Sprintf("%s: op %d (%d operations handed to Q)", when, id, len(cr.order)), false)
 		case term[id] > 0 && pending[id] && final:
 			e.report("C13", "pending-and-completed", "operation is pending although it has a terminal result", fmt.Sprintf("%s: op %d", when, id), false)
@@ -626,7 +627,7 @@ func runCli(e *env) {
 				e.report("C14", "stale-after-reset", "Done is still signalled after Reset", "", false)
 			default:
 			}
-			cr.handed, cr.order, cr.faulted = map[uint64]*spb.AFTOperation{}, nil, false
+			cr.handed, cr.order, cr.faulted, cr.afterReset = map[uint64]*spb.AFTOperation{}, nil, false, true
 		case "reconnect":
 			cr.srv.violated = false
 			connect()
@@ -765,6 +766,10 @@ func (cr *cliRun) await(st *Step) {
 		}
 	default:
 		if err != nil {
+			if cr.afterReset {
+				e.report("C14", "not-fresh-after-reset", "after Reset and Connect a new exchange with a compliant server did not converge", err.Error(), false)
+				return
+			}
 			e.report("C13", "await-error", "AwaitConverged failed against a compliant server", err.Error(), false)
 			return
 		}
